@@ -254,6 +254,10 @@ func ruleERRDISC(p *Program, rep *Report, pkgFilter string, ioOnly bool) {
 			rep.OK("ERRDISC", key, p.InstrPos(d.ins), "allow-listed: "+hit.Reason)
 			continue
 		}
+		if why := structuralException(p, d); why != "" {
+			rep.OK("ERRDISC", key, p.InstrPos(d.ins), "accepted idiom: "+why)
+			continue
+		}
 		rep.Bad("ERRDISC", key, p.InstrPos(d.ins), fmt.Sprintf("error of %s is dropped in %s (%s): a failure of the storage layer goes unnoticed", d.callee, caller, d.how))
 	}
 	callers := make([]string, 0, len(consumedBy))
@@ -284,4 +288,89 @@ func neverFails(fn *ssa.Function) bool {
 		}
 	}
 	return n > 0
+}
+
+// isReleaseOp: operations that give something back; their error cannot be handled on a cleanup path.
+func isReleaseOp(callee string) bool {
+	for _, suf := range []string{"File.Unlock", "File).Unlock", "File.Close", "File).Close", "(*txfile.File).munmap", "(*txfile.Tx).Close", "(*txfile.Tx).Rollback", "File.MUnmap", "File).MUnmap"} {
+		if strings.HasSuffix(callee, suf) {
+			return true
+		}
+	}
+	return false
+}
+
+// onlyDeferred: fn is an anonymous function whose value is only ever deferred or handed to a
+// cleanup.* helper (i.e. it is a cleanup action).
+func onlyDeferred(fn *ssa.Function) bool {
+	par := fn.Parent()
+	if par == nil {
+		return false
+	}
+	used := false
+	for _, b := range par.Blocks {
+		for _, ins := range b.Instrs {
+			mc, ok := ins.(*ssa.MakeClosure)
+			if !ok || mc.Fn != ssa.Value(fn) || mc.Referrers() == nil {
+				// a closure without free variables is referenced as a plain function value
+				if c, ok2 := ins.(ssa.CallInstruction); ok2 {
+					for _, a := range append([]ssa.Value{c.Common().Value}, c.Common().Args...) {
+						if a == ssa.Value(fn) {
+							used = true
+							if _, isDefer := ins.(*ssa.Defer); !isDefer {
+								sc := c.Common().StaticCallee()
+								if sc == nil || !strings.HasSuffix(fnPkgPath(sc), "internal/cleanup") {
+									return false
+								}
+							}
+						}
+					}
+				}
+				continue
+			}
+			for _, r := range *mc.Referrers() {
+				switch x := r.(type) {
+				case *ssa.Defer:
+					used = true
+				case ssa.CallInstruction:
+					sc := x.Common().StaticCallee()
+					if sc == nil || !strings.HasSuffix(fnPkgPath(sc), "internal/cleanup") {
+						return false
+					}
+					used = true
+				case *ssa.DebugRef:
+				default:
+					return false
+				}
+			}
+		}
+	}
+	return used
+}
+
+// structuralException recognises the two idioms under which this code base deliberately drops an error:
+//  (1) a release operation (Unlock/Close/munmap/Tx.Close/Rollback) executed as a deferred cleanup action;
+//  (2) draining the writer: a Wait() whose result is dropped, in a function where an earlier Wait() result
+//      is consumed (that error is the one reported) or as a deferred call.
+func structuralException(p *Program, d errSite) string {
+	_, isDefer := d.ins.(*ssa.Defer)
+	if isReleaseOp(d.callee) && (isDefer || onlyDeferred(d.caller)) {
+		return "release operation on a deferred cleanup path"
+	}
+	if strings.HasSuffix(d.callee, "(*txfile.txWriteSync).Wait") {
+		if isDefer {
+			return "deferred Wait only drains the writer"
+		}
+		wait := p.MethodOpt("txfile", "txWriteSync", "Wait")
+		for _, c := range callsIn(d.caller, func(cal *ssa.Function, _ ssa.CallInstruction) bool { return cal == wait }) {
+			cv, ok := c.(*ssa.Call)
+			if !ok || c == d.ins.(ssa.CallInstruction) {
+				continue
+			}
+			if valueConsumed(cv) && (cv.Block().Dominates(d.ins.Block())) {
+				return "drain after an earlier Wait whose error is consumed"
+			}
+		}
+	}
+	return ""
 }
